@@ -26,6 +26,7 @@ var c12Queries = []string{
 	"SELECT a, (SELECT ASYNC.vid(p) AS w FROM items) AS s FROM t WHERE a > ?",
 	"WITH c AS (SELECT a, ASYNC.vid(a) AS v FROM t), d AS (SELECT * FROM c WHERE a > ?) SELECT * FROM d",
 	"SELECT a, AWAIT(ASYNC.vid(a + 1)) AS v, AWAIT(a) AS w FROM t WHERE a > ?",
+	"SELECT ARRAY(IF(a > ?, 1, a), a) AS arr, (a, IF(a > ?, 'x', 'y')) AS tup, CONCAT('v=', IF(a > ?, 1, 2)) AS c, FIRST(ARRAY(IF(a > ?, a, 'z'))) AS f FROM t",
 	// INTO joins (nested loop and hash)
 	"SELECT * FROM t x JOIN t y ON x.a <= y.a INTO pair WHERE x.a > ?",
 	"SELECT * FROM t x LEFT JOIN t y ON x.a = y.a INTO pair WHERE x.a > ?",
